@@ -169,6 +169,54 @@ def template_attr_chains(ctx: Context) -> list[tuple[str, int, str]]:
     return out
 
 
+_APP_SOURCES = ("state_backend.", "orchestrator.", "broker.", "trigger.", "client_data_store.", "app.", "invocation.", ".result", ".arguments", ".get_result(", ".get_exception(")
+
+
+def r5(ctx: Context) -> None:
+    """What a page shows is the application's own object more often than a copy (results and arguments come out of the
+    client data store's process-local cache)."""
+    from ..flow import MUTATING_METHODS, build_cfg, cfg_node_of, parent_map, reaching_definitions
+
+    ctx.rule("R5", "the monitor never changes an object the application handed it: in pynmon no in-place mutation (mutating method, `del x[..]`, item assignment, augmented item assignment) is applied to a local whose reaching definition is the result of a call into the application (state backend, orchestrator, broker, trigger, client data store, an invocation's result / arguments) - such a value can be the cached object later readers receive; a page that trims or annotates it for display must work on a copy")
+    n = 0
+    for f in ctx.repo.all_functions():
+        if not f.module.name.startswith("pynmon."):
+            continue
+        g = None
+        for x in walk_no_nested(f.node):
+            root = None
+            if isinstance(x, ast.Call) and isinstance(x.func, ast.Attribute) and x.func.attr in MUTATING_METHODS:
+                root = x.func.value
+            elif isinstance(x, (ast.Assign, ast.Delete)):
+                for t in x.targets:
+                    if isinstance(t, ast.Subscript):
+                        root = t.value
+            elif isinstance(x, ast.AugAssign) and isinstance(x.target, ast.Subscript):
+                root = x.target.value
+            if root is None:
+                continue
+            while isinstance(root, (ast.Subscript, ast.Attribute)):
+                root = root.value
+            if not isinstance(root, ast.Name):
+                continue
+            if g is None:
+                g = build_cfg(f.node)
+                defs, IN = reaching_definitions(g)
+                pm = parent_map(f.node)
+            n += 1
+            src = None
+            for nd in cfg_node_of(g, f.node, x, pm):
+                for d in IN[nd.id]:
+                    if d.name == root.id and d.kind == "assign" and isinstance(d.value, (ast.Call, ast.Attribute, ast.Await)):
+                        txt = ast.unparse(d.value)
+                        if any(k in txt for k in _APP_SOURCES) and not (isinstance(d.value, ast.Call) and call_name(d.value) in ("list", "dict", "set", "sorted", "tuple", "copy", "deepcopy", "loads")):
+                            src = txt
+            if src is not None:
+                ctx.fail("R5", f"{f.qualname}::mutates-a-value-obtained-from-the-app::{root.id}", f.loc(x), f"`{ast.unparse(x)[:60]}` changes `{root.id}` in place, which is `{src[:60]}`: when that call answers from a process-local cache (externalised results and arguments do) every later reader - the caller's result(), another page - receives the modified object")
+    ctx.ok("R5", "pynmon::in-place-mutations-scanned", "pynmon/", f"{n} in-place mutations of locals examined")
+    ctx.floor("R5", "in-place mutations of locals in pynmon", n, 20)
+
+
 def run(ctx: Context) -> None:
     ctx.rule("R1", "mutator inference: writes to store attributes of component classes (frozen store/cache table), non-read SQL statements, class-level registries; transitive closure over the call graph")
     ctx.rule("R2", "no handler registered with a GET decorator reaches a store mutator over the over-approximated call graph; no template expression reads a side-effect property (result / results / async_result) or calls a mutator by name")
@@ -353,6 +401,7 @@ def run(ctx: Context) -> None:
         okb = i_pop < i_push and not risky
         ctx.add("R4", f"{f.qualname}::nothing-fallible-between-pop-and-requeue", okb, f.loc(risky[0]) if risky else f.loc(), "" if okb else (f"`{ast.unparse(risky[0])[:60]}` runs after the messages were popped and before they are routed back: if it raises, the popped messages are lost" if risky else "the re-routing does not follow the pops"))
     ctx.floor("R4", "handlers that pop and re-route", n4, 1)
+    r5(ctx)
     # side-effect property reads in handler code (typed through the call graph: property edges)
     ctx.exhaustive = True
     ctx.not_decided += ["dynamic dispatch through Jinja filters/macros beyond textual attribute chains"]
